@@ -111,6 +111,8 @@ def lin_network(draw):
                 if len(others) < 2:
                     continue
                 bs, fs = draw(st.permutations(others))[:2]
+                if draw(st.integers(0, 11)) == 0:
+                    fs = bs         # identical targets are admitted by class Angle: derivatives cancel, misclosure = value
                 ob.update({"bs": bs, "fs": fs, "e": draw(st.sampled_from(ANG_OFFSETS)) * 1e4})
             elif t in ("distance", "s-distance"):
                 ob.update({"to": to, "e": draw(st.integers(-30, 30)) * 1.0})
